@@ -50,8 +50,10 @@ type c13Table struct {
 	group   string
 	root    string
 	tids    map[string]struct{}
-	lateErr string
-	epoch   uint64
+	lateErr  string
+	epoch    uint64
+	segStart int64
+	segEnd   int64
 }
 
 func c13ParseSpans(spec string) []c13Span {
@@ -86,7 +88,7 @@ func c13NewTable(segStart, segEnd, grace int64) *c13Table {
 	tst.segmentTimeRange = timestamp.NewInclusiveTimeRange(time.Unix(0, segStart), time.Unix(0, segEnd))
 	tst.loopCloser = run.NewCloser(1)
 	tst.mergeCh = make(chan *mergerIntroduction)
-	return &c13Table{tst: tst, group: group, root: root, epoch: 1, tids: map[string]struct{}{}}
+	return &c13Table{tst: tst, group: group, root: root, epoch: 1, tids: map[string]struct{}{}, segStart: segStart, segEnd: segEnd}
 }
 
 func (t *c13Table) close() {
@@ -571,6 +573,7 @@ func (t *c13Table) dump() string {
 //
 //	W:<tid>.<sid>.<ts>,...          write one batch (memory part + sidx entries)
 //	F                               flush memory parts
+//	I:<incStart><incEnd>            IncludeStart / IncludeEnd of the segment time range (default 11)
 //	M:<mode>:<sel>:<now>:<bm>:<dsb>:<sampler>:<late>[:<finalizeGrace>]
 //	O                               observe (state dump); a dump is always appended at the end
 func verifC13Table(f []string) string {
@@ -586,6 +589,10 @@ func verifC13Table(f []string) string {
 		case "F":
 			t.flush()
 			out = append(out, "F")
+		case "I":
+			// segment time range flags (production segments are [start, end): "10")
+			t.tst.segmentTimeRange = timestamp.NewTimeRange(time.Unix(0, t.segStart), time.Unix(0, t.segEnd), q[1][0] == '1', q[1][1] == '1')
+			out = append(out, "I")
 		case "M":
 			out = append(out, t.merge(q))
 		case "O":
